@@ -286,7 +286,10 @@ func TestVerif_C02(t *testing.T) {
 		}
 	}
 	c01SingleSweep(r, &idx, run)
-	c01ProgSweep(r, vlib.Pick(r, 3, 4), &idx, run)
+	c01ProgSweep(r, 3, &idx, run)
+	if r.Thorough() {
+		c01ProgSweep4(r, c01Sub4, &idx, run)
+	}
 	// host-call resumption: programs with up to 3 ecalli in a row and around branches
 	for _, b := range c02ResumeBlobs() {
 		idx++
